@@ -3254,3 +3254,529 @@ Section NearIndex.
           destruct (V2 eq_refl) as [Hne _]. contradiction.
   Qed.
 End NearIndex.
+
+(* ================= 15. near-tree descendants: the frontier loop ================= *)
+Lemma filter_le_impl : forall A (g h : A -> bool) l, (forall a, g a = true -> h a = true) ->
+  length (filter g l) <= length (filter h l).
+Proof.
+  intros A g h l Hgh. induction l as [|b l IH]; cbn; auto.
+  destruct (g b) eqn:Eg; [rewrite (Hgh b Eg); cbn; lia|]. destruct (h b); cbn; lia.
+Qed.
+
+Lemma push_fold2 : forall (cond : nat * nat -> bool) l rest,
+  fold_left (fun fr (e : nat * nat) => if cond e then fst e :: fr else fr) l rest
+  = rev (map fst (filter cond l)) ++ rest.
+Proof.
+  intros cond. induction l as [|e l IH]; intros rest; cbn [fold_left filter]; [reflexivity|].
+  rewrite IH. destruct (cond e); cbn [map rev]; [rewrite <- app_assoc|]; reflexivity.
+Qed.
+
+Section NearDesc.
+  Variables (p : poset) (rk : nat -> nat).
+  Hypothesis W : wf_poset p rk.
+  Let n := pn p.
+  Let R := reach (parents p).
+  Let Fr := reach (fpar p).
+  Let arrs := nested_arrays n (fch p) (roots p).
+  Let tin := fst (fst arrs).
+  Let tout := snd (fst arrs).
+  Let inv := snd arrs.
+  Let exc := fold_left (fun a e => insert_exc tin e a) (raw_exceptions p) [].
+  Let Tf := preorder (S n) (fch p).
+
+  Lemma Tf_slice : forall cur, cur < n -> slice inv (nth cur tin 0) (nth cur tout 0) = Tf cur.
+  Proof.
+    intros cur Hc. unfold inv, tin, tout, arrs, nested_arrays. cbn [fst snd]. rewrite !nth_map_seq by auto.
+    apply (forest_slice n (fpar p) (fch p) (roots p) rk); auto.
+    - apply (f_ranked p rk W).
+    - intros c v. apply (fch_spec p rk W).
+    - apply f_one.
+    - apply (f_nd p rk W).
+    - apply roots_nodup.
+    - apply f_roots.
+    - apply (f_lt p rk W).
+  Qed.
+
+  Lemma Tf_in : forall cur z, In z (Tf cur) <-> Fr z cur.
+  Proof.
+    intros cur z. apply (in_T_reach n (fpar p) (fch p) (roots p) rk).
+    - apply (f_ranked p rk W).
+    - intros c v. apply (fch_spec p rk W).
+    - apply f_one.
+    - apply (f_nd p rk W).
+    - apply f_roots.
+    - apply (f_lt p rk W).
+  Qed.
+
+  Variable y : nat.
+  Hypothesis Hy : y < n.
+
+  Definition U (seen : list nat) : nat := length (filter (fun v => negb (memn v seen)) (seq 0 n)).
+  Definition hot (frontier seen : list nat) : bool :=
+    match frontier with [] => false | h :: _ => negb (memn h seen) end.
+  Definition K : nat := S (length exc).
+  Definition Psi (frontier seen : list nat) : nat :=
+    2 * K * U seen + length frontier + (if hot frontier seen then 0 else K).
+
+  Lemma U_mono : forall s s', incl s s' -> U s' <= U s.
+  Proof.
+    intros s s' Hi. unfold U. apply filter_le_impl. intros v Hv. apply negb_true_iff in Hv. apply negb_true_iff.
+    apply memn_false. apply memn_false in Hv. intros H. apply Hv. auto.
+  Qed.
+
+  Lemma U_strict : forall s s' v, incl s s' -> v < n -> ~ In v s -> In v s' -> U s' < U s.
+  Proof.
+    intros s s' v Hi Hv Hn Hin. unfold U. apply (filter_lt _ _ _ (seq 0 n) v).
+    - intros a Ha. apply negb_true_iff in Ha. apply negb_true_iff. apply memn_false. apply memn_false in Ha. auto.
+    - apply in_seq. lia.
+    - apply negb_true_iff. apply memn_false. auto.
+    - apply negb_false_iff. apply memn_In. auto.
+  Qed.
+
+  Record jinv (frontier seen done : list nat) : Prop := {
+    j_a : forall s, In s seen -> exists cur, In cur done /\ Fr s cur;
+    j_b : forall cur s, In cur done -> Fr s cur -> In s seen;
+    j_c : forall cur, In cur (done ++ frontier) -> cur < n /\ R cur y;
+    j_d : forall cur c q, In cur done -> In (c, q) exc -> Fr q cur -> In c seen \/ In c frontier;
+    j_e : In y done \/ In y frontier }.
+
+  Hypothesis Hins : forall a b, a < n -> b < n -> (inside tin tout a b = true <-> Fr a b).
+
+  Lemma loop_spec : forall fuel frontier seen done, jinv frontier seen done -> Psi frontier seen < fuel ->
+    forall w, In w (near_desc_loop fuel tin tout inv exc frontier seen) <-> (w < n /\ R w y).
+  Proof.
+    induction fuel as [|f IH]; intros frontier seen done J HP; [lia|].
+    cbn [near_desc_loop]. destruct frontier as [|cur rest].
+    - (* finished *)
+      destruct J as [Ja Jb Jc Jd Je]. intros w. split.
+      + intros Hw. destruct (Ja w Hw) as [cur [Hc Hf]]. destruct (Jc cur) as [Hcn Hcy]; [rewrite app_nil_r; auto|].
+        split.
+        * eapply (forest_reach_lt n (fpar p)); eauto. apply (f_lt p rk W).
+        * eapply reach_trans; [apply (Fr_R p); eauto|auto].
+      + intros [Hwn Hw].
+        assert (G : forall a b, reach (parents p) a b -> b = y -> a < n -> In a seen).
+        { intros a b Hab. induction Hab as [a|a a' b Hin Hr IHw]; intros Eb Han.
+          - subst a. destruct Je as [Hd|[]]. apply (Jb y y Hd). constructor.
+          - assert (Ha'n : a' < n) by (apply (wf_lt p rk W) in Hin; tauto).
+            specialize (IHw Eb Ha'n). destruct (Ja a' IHw) as [cur [Hc Hf]].
+            apply (edge_split p rk W) in Hin as [Hfe|He].
+            + apply (Jb cur a Hc). eapply reach_step; eauto.
+            + destruct (Jd cur a a' Hc He Hf) as [H|[]]. auto. }
+        apply (G w y Hw eq_refl Hwn).
+    - (* one iteration *)
+      destruct (J.(j_c _ _ _) cur) as [Hcn Hcy]; [apply in_or_app; right; cbn; auto|].
+      rewrite (Tf_slice cur Hcn).
+      set (seen' := Tf cur ++ seen).
+      set (cond := fun e : nat * nat => inside tin tout (snd e) cur && negb (memn (fst e) seen')).
+      change (fold_left _ exc rest) with (fold_left (fun fr (e : nat * nat) => if cond e then fst e :: fr else fr) exc rest).
+      rewrite (push_fold2 cond exc rest).
+      set (P := rev (map fst (filter cond exc))).
+      assert (HPin : forall c, In c P <-> exists q, In (c, q) exc /\ Fr q cur /\ ~ In c seen').
+      { intros c. unfold P. rewrite <- in_rev, in_map_iff. split.
+        - intros [[c0 q] [E Hin]]. cbn in E. subst c0. apply filter_In in Hin as [Hin Hc]. unfold cond in Hc. cbn [fst snd] in Hc.
+          apply andb_true_iff in Hc as [C1 C2]. destruct (exc_edge p rk W c q Hin) as [_ [Hc1 [Hq1 _]]].
+          exists q. split; auto. split; [apply Hins; auto|]. apply negb_true_iff in C2. apply memn_false; auto.
+        - intros [q [Hin [Hf Hn]]]. exists (c, q). split; auto. apply filter_In. split; auto. unfold cond. cbn [fst snd].
+          destruct (exc_edge p rk W c q Hin) as [_ [Hc1 [Hq1 _]]].
+          apply andb_true_iff. split; [apply Hins; auto|]. apply negb_true_iff. apply memn_false; auto. }
+      apply (IH (P ++ rest) seen' (cur :: done)).
+      + destruct J as [Ja Jb Jc Jd Je]. constructor.
+        * intros s Hs. apply in_app_or in Hs as [Hs|Hs].
+          -- exists cur. split; [cbn; auto|]. apply Tf_in; auto.
+          -- destruct (Ja s Hs) as [c0 [H1 H2]]. exists c0. split; [cbn; auto|auto].
+        * intros c0 s [<-|Hc0] Hf; apply in_or_app; [left; apply Tf_in; auto|right; eauto].
+        * intros c0 Hc0. cbn [app] in Hc0. destruct Hc0 as [<-|Hc0]; auto.
+          apply in_app_or in Hc0 as [H|H]; [apply Jc; apply in_or_app; auto|].
+          apply in_app_or in H as [H|H]; [|apply Jc; apply in_or_app; right; cbn; auto].
+          apply HPin in H as [q [Hin [Hf _]]]. destruct (exc_edge p rk W c0 q Hin) as [Hpar [Hc1 _]]. split; auto.
+          eapply reach_step; [exact Hpar|]. eapply reach_trans; [apply (Fr_R p); eauto|auto].
+        * intros c0 c q [<-|Hc0] Hin Hf.
+          -- destruct (in_dec Nat.eq_dec c seen') as [H|H]; auto. right. apply in_or_app; left. apply HPin. eauto.
+          -- destruct (Jd c0 c q Hc0 Hin Hf) as [H|[<-|H]].
+             ++ left. apply in_or_app; auto.
+             ++ left. apply in_or_app; left. apply Tf_in. constructor.
+             ++ right. apply in_or_app; auto.
+        * destruct Je as [H|[<-|H]]; [left; cbn; auto|left; cbn; auto|right; apply in_or_app; auto].
+      + (* the potential decreases *)
+        assert (Hincl : incl seen seen') by (intros s Hs; apply in_or_app; auto).
+        assert (Hcur' : In cur seen') by (apply in_or_app; left; apply Tf_in; constructor).
+        assert (HlenP : length P <= length exc).
+        { unfold P. rewrite rev_length, map_length. apply filter_length_le. }
+        assert (Hhot' : P <> [] -> hot (P ++ rest) seen' = true).
+        { intros HPne. destruct P as [|c P'] eqn:EP; [congruence|]. cbn [app hot].
+          assert (In c (c :: P')) by (cbn; auto). apply HPin in H as [q [_ [_ Hn]]].
+          apply negb_true_iff. apply memn_false; auto. }
+        unfold Psi in *. rewrite app_length. cbn [length] in HP. unfold K in *.
+        destruct (in_dec Nat.eq_dec cur seen) as [Hs|Hs].
+        * (* cur was already seen: not hot before *)
+          assert (Hh : hot (cur :: rest) seen = false) by (cbn [hot]; apply negb_false_iff, memn_In; auto).
+          rewrite Hh in HP. pose proof (U_mono seen seen' Hincl).
+          destruct P as [|c P'] eqn:EP.
+          -- cbn [length app]. destruct (hot rest seen'); nia.
+          -- rewrite Hhot' by discriminate. nia.
+        * pose proof (U_strict seen seen' cur Hincl Hcn Hs Hcur').
+          destruct (hot (P ++ rest) seen'); destruct (hot (cur :: rest) seen); nia.
+  Qed.
+End NearDesc.
+
+(* ================= 16. strictly sorted lists; near-tree descendants as a list ================= *)
+Fixpoint ssort (l : list nat) : Prop :=
+  match l with [] => True | a :: r => (forall x, In x r -> a < x) /\ ssort r end.
+
+Lemma ssort_seq : forall len a, ssort (seq a len).
+Proof.
+  induction len as [|len IH]; intros a; cbn; auto. split; auto. intros x Hx. apply in_seq in Hx. lia.
+Qed.
+
+Lemma ssort_filter : forall g l, ssort l -> ssort (filter g l).
+Proof.
+  induction l as [|a l IH]; intros H; cbn; auto. destruct H as [H1 H2].
+  destruct (g a); cbn; auto. split; auto. intros x Hx. apply filter_In in Hx as [Hx _]. auto.
+Qed.
+
+Lemma insert_sorted_in : forall x l y, In y (insert_sorted x l) <-> y = x \/ In y l.
+Proof.
+  intros x. induction l as [|a l IH]; intros y; cbn [insert_sorted]; [cbn; intuition|].
+  destruct (x <? a); [cbn; intuition|]. destruct (Nat.eqb_spec x a) as [->|]; cbn [In]; [intuition|].
+  rewrite IH. intuition.
+Qed.
+
+Lemma insert_sorted_ssort : forall x l, ssort l -> ssort (insert_sorted x l).
+Proof.
+  intros x. induction l as [|a l IH]; intros H; cbn [insert_sorted].
+  { cbn. split; [intros y []|exact I]. }
+  destruct H as [H1 H2]. destruct (Nat.ltb_spec x a).
+  - cbn. split; [|split; auto]. intros y [<-|Hy]; auto. specialize (H1 y Hy). lia.
+  - destruct (Nat.eqb_spec x a); [cbn; auto|]. cbn. split; auto.
+    intros y Hy. apply insert_sorted_in in Hy as [->|Hy]; [lia|auto].
+Qed.
+
+Lemma sort_dedup_spec : forall l, ssort (sort_dedup l) /\ forall y, In y (sort_dedup l) <-> In y l.
+Proof.
+  induction l as [|a l [I1 I2]]; cbn [sort_dedup fold_right]; [cbn; split; [auto|tauto]|].
+  fold (sort_dedup l). split; [apply insert_sorted_ssort; auto|].
+  intros y. rewrite insert_sorted_in, I2. cbn. intuition.
+Qed.
+
+Lemma ssort_ext : forall l l', ssort l -> ssort l' -> (forall x, In x l <-> In x l') -> l = l'.
+Proof.
+  induction l as [|a l IH]; intros l' H H' He.
+  - destruct l' as [|b l']; auto. exfalso. apply (He b). cbn; auto.
+  - destruct l' as [|b l']; [exfalso; apply (He a); cbn; auto|].
+    destruct H as [H1 H2]. destruct H' as [H1' H2'].
+    assert (a = b).
+    { destruct (proj1 (He a) (or_introl eq_refl)) as [E|Hin]; auto.
+      destruct (proj2 (He b) (or_introl eq_refl)) as [E|Hin2]; auto.
+      specialize (H1' a Hin). specialize (H1 b Hin2). lia. }
+    subst b. f_equal. apply IH; auto. intros x. split; intros Hx.
+    + destruct (proj1 (He x) (or_intror Hx)) as [E|Hin]; auto. subst. specialize (H1 x Hx). lia.
+    + destruct (proj2 (He x) (or_intror Hx)) as [E|Hin]; auto. subst. specialize (H1' x Hx). lia.
+Qed.
+
+Lemma ssort_NoDup : forall l, ssort l -> NoDup l.
+Proof.
+  induction l as [|a l IH]; intros H; constructor; destruct H as [H1 H2]; auto.
+  intros Hin. specialize (H1 a Hin). lia.
+Qed.
+
+(* ================= 17. near-tree at index level ================= *)
+Section NearAll.
+  Variables (p : poset) (rk : nat -> nat).
+  Hypothesis W : wf_poset p rk.
+  Let n := pn p.
+  Let ix0 := mk_index p (build_near p) None [].
+
+  Theorem near_descendants : forall m r y, y < n ->
+    descendants (mk_index p (build_near p) m r) y = spec_desc p y.
+  Proof.
+    intros m r y Hy. unfold descendants, mk_index. cbn [ix_enc ix_poset]. rewrite (near_enc p).
+    set (tin := fst (fst (nested_arrays (pn p) (fch p) (roots p)))).
+    set (tout := snd (fst (nested_arrays (pn p) (fch p) (roots p)))).
+    set (inv := snd (nested_arrays (pn p) (fch p) (roots p))).
+    set (exc := fold_left (fun a e => insert_exc tin e a) (raw_exceptions p) []).
+    destruct (sort_dedup_spec (near_desc_loop (2 * S (pn p) * (length exc + 2)) tin tout inv exc [y] [])) as [S1 S2].
+    apply ssort_ext; auto.
+    - unfold spec_desc. apply ssort_filter. unfold nodes. apply ssort_seq.
+    - intros x. rewrite S2. rewrite (spec_desc_spec p rk W).
+      apply (loop_spec p rk W y Hy (near_inside p rk W) (2 * S (pn p) * (length exc + 2)) [y] [] []).
+      + constructor.
+        * intros s [].
+        * intros cur s [].
+        * intros cur [<-|[]]. split; [auto|constructor].
+        * intros cur c q [].
+        * right. cbn; auto.
+      + unfold Psi, hot, K, U, memn. cbn [existsb negb length].
+        change (fold_left (fun a e => insert_exc (fst (fst (nested_arrays (pn p) (fch p) (roots p)))) e a) (raw_exceptions p) []) with exc.
+        match goal with |- context [length (filter ?g (seq 0 (pn p)))] =>
+          assert (Hu : length (filter g (seq 0 (pn p))) <= pn p)
+            by (rewrite <- (seq_length (pn p) 0) at 2; apply filter_length_le);
+          revert Hu; generalize (length (filter g (seq 0 (pn p)))) end.
+        generalize (length exc). generalize (pn p). intros a b c Hc. nia.
+  Qed.
+
+  Definition nbuild (measure : list (option Z)) (acc : list (rop * rdata)) (o : rop) : list (rop * rdata) :=
+    match o with OCount => acc | _ => set_op o (rollup_data ix0 measure o) acc end.
+
+  Lemma near_set_measure_eq : forall measure ops,
+    set_measure ix0 measure ops = mk_index p (build_near p) (Some measure) (fold_left (nbuild measure) ops []).
+  Proof. reflexivity. Qed.
+
+  Lemma near_rollup_data : forall measure o, rollup_data ix0 measure o = RFoldSet.
+  Proof. intros. unfold rollup_data, ix0, mk_index. cbn [ix_enc]. rewrite (near_enc p). reflexivity. Qed.
+
+  Theorem near_update_is_rebuild : forall measure ops node v, length measure = n -> node < n ->
+    update_measure (set_measure ix0 measure ops) node v = Some (set_measure ix0 (upd measure node v) ops).
+  Proof.
+    intros measure ops node v Hm Hnode. rewrite !near_set_measure_eq.
+    unfold update_measure, mk_index. cbn [ix_measure ix_poset ix_enc ix_rollups]. f_equal. f_equal.
+    set (ix := {| ix_poset := p; ix_enc := build_near p; ix_measure := Some measure;
+                  ix_rollups := fold_left (nbuild measure) ops [] |}).
+    set (Fn := fun o d => update_rdata ix (upd measure node v) node (nth node measure None) v o d).
+    assert (HF : forall o, Fn o (rollup_data ix0 measure o) = rollup_data ix0 (upd measure node v) o).
+    { intros o. rewrite !near_rollup_data. reflexivity. }
+    assert (G : forall l acc, map (fun e : rop * rdata => (fst e, Fn (fst e) (snd e))) (fold_left (nbuild measure) l acc)
+                = fold_left (nbuild (upd measure node v)) l (map (fun e : rop * rdata => (fst e, Fn (fst e) (snd e))) acc)).
+    { induction l as [|o l IHl]; intros acc; cbn [fold_left]; auto.
+      rewrite IHl. f_equal. destruct o; cbn [nbuild]; auto; rewrite set_op_map, HF; reflexivity. }
+    apply (G ops []).
+  Qed.
+
+  Lemma near_rollup_gen : forall ix measure y o tin tout inv exc,
+    ix_enc ix = ENear tin tout inv exc -> ix_measure ix = Some measure ->
+    descendants ix y = spec_desc p y ->
+    (o = OCount \/ assoc_op o (ix_rollups ix) = Some RFoldSet) ->
+    rollup ix y o = Some (rollup_spec p measure y o).
+  Proof.
+    intros ix measure y o tin tout inv exc He Hm D Ho. unfold rollup, rollup_spec.
+    destruct o.
+    2:{ unfold descendant_count. rewrite He, D. reflexivity. }
+    all: destruct Ho as [Ho|Ho]; [discriminate|]; rewrite Ho, He, Hm, D; reflexivity.
+  Qed.
+
+  Theorem near_rollup_build : forall measure ops y o, length measure = n -> y < n ->
+    (o = OCount \/ In o ops) ->
+    rollup (set_measure ix0 measure ops) y o = Some (rollup_spec p measure y o).
+  Proof.
+    intros measure ops y o Hm Hy Ho. rewrite near_set_measure_eq.
+    pose proof (near_descendants (Some measure) (fold_left (nbuild measure) ops []) y Hy) as D.
+    apply (near_rollup_gen (mk_index p (build_near p) (Some measure) (fold_left (nbuild measure) ops [])) measure y o _ _ _ _ (near_enc p) eq_refl D).
+    destruct Ho as [->|Ho]; auto.
+    destruct (rop_eqb o OCount) eqn:Ec; [apply rop_eqb_eq in Ec; auto|]. right.
+    unfold mk_index. cbn [ix_rollups].
+    change (fold_left (nbuild measure) ops []) with
+      (fold_left (fun acc o' => match o' with OCount => acc | _ => set_op o' (rollup_data ix0 measure o') acc end) ops []).
+    rewrite assoc_set_measure by (intros ->; discriminate).
+    replace (existsb (rop_eqb o) ops) with true
+      by (symmetry; apply existsb_exists; exists o; split; auto; apply rop_eqb_eq; auto).
+    rewrite near_rollup_data. reflexivity.
+  Qed.
+
+  Theorem near_rollup_after_updates : forall measure ops us, length measure = n ->
+    (forall u, In u us -> fst u < n) ->
+    apply_updates (set_measure ix0 measure ops) us = Some (set_measure ix0 (upd_all measure us) ops) /\
+    forall y o, y < n -> (o = OCount \/ In o ops) ->
+      rollup (set_measure ix0 (upd_all measure us) ops) y o = Some (rollup_spec p (upd_all measure us) y o).
+  Proof.
+    intros measure ops us. revert measure. induction us as [|[node v] us IH]; intros measure Hm Hus.
+    - split; [reflexivity|]. intros y o Hy Ho. apply near_rollup_build; auto.
+    - cbn [apply_updates]. rewrite near_update_is_rebuild; auto; [|apply (Hus (node, v)); cbn; auto].
+      unfold upd_all. cbn [fold_left fst snd]. apply IH.
+      + rewrite upd_length. auto.
+      + intros u Hu. apply Hus. cbn; auto.
+  Qed.
+End NearAll.
+
+(* ================= 18. every encoding the probe can select or that can be forced ================= *)
+Lemma build_enc_cases : forall p f en, build_enc p f = inl en ->
+  (is_tree p = true /\ en = build_nested p) \/ en = build_near p \/ en = build_chain p.
+Proof.
+  intros p f en H. unfold build_enc in H. destruct f.
+  - destruct (is_tree p) eqn:Et; [inversion H; auto|].
+    destruct (extra_parent_count p <=? exception_cap_for (pn p)); [inversion H; auto|].
+    destruct ((width_cap_for (pn p) <? length (decompose_chains p)) && (100 <? pn p)); [discriminate|inversion H; auto].
+  - destruct (is_tree p) eqn:Et; [inversion H; auto|discriminate].
+  - inversion H; auto.
+  - inversion H; auto.
+Qed.
+
+Theorem all_subsumes_desc : forall p rk f en m r, wf_poset p rk -> topo_ok p -> build_enc p f = inl en ->
+  forall x y, x < pn p -> y < pn p ->
+  subsumes (mk_index p en m r) x y = spec_subsumes p x y /\
+  NoDup (descendants (mk_index p en m r) y) /\
+  (forall z, In z (descendants (mk_index p en m r) y) <-> In z (spec_desc p y)) /\
+  descendant_count (mk_index p en m r) y = length (spec_desc p y).
+Proof.
+  intros p rk f en m r W TO H x y Hx Hy.
+  destruct (build_enc_cases p f en H) as [[Ht ->]|[->| ->]].
+  - pose proof (is_tree_forest p Ht) as F.
+    destruct (nested_descendants p rk m r W F y Hy) as [D1 [D2 [D3 D4]]]. cbv zeta in *.
+    repeat split; auto; try apply D2; [apply (nested_subsumes p rk m r W F); auto|congruence].
+  - pose proof (near_descendants p rk W m r y Hy) as D.
+    split; [apply (near_subsumes p rk W); auto|]. rewrite D. split; [|split; [tauto|]].
+    + unfold spec_desc. apply NoDup_filter, seq_NoDup.
+    + unfold descendant_count, mk_index at 1. cbn [ix_enc]. rewrite (near_enc p).
+      fold (mk_index p (build_near p) m r). rewrite <- (near_enc p). fold (mk_index p (build_near p) m r).
+      rewrite D. reflexivity.
+  - destruct (chain_descendants p rk W TO m r y Hy) as [D1 [D2 [D3 D4]]]. cbv zeta in *.
+    repeat split; auto; try apply D2; [apply (chain_subsumes p rk W TO); auto|congruence].
+Qed.
+
+Theorem all_rollup : forall p rk f en measure ops us, wf_poset p rk -> topo_ok p -> build_enc p f = inl en ->
+  length measure = pn p -> (forall u, In u us -> fst u < pn p) ->
+  exists ix', apply_updates (set_measure (mk_index p en None []) measure ops) us = Some ix' /\
+    forall y o, y < pn p -> (o = OCount \/ In o ops) ->
+      rollup ix' y o = Some (rollup_spec p (upd_all measure us) y o).
+Proof.
+  intros p rk f en measure ops us W TO H Hm Hus.
+  destruct (build_enc_cases p f en H) as [[Ht ->]|[->| ->]].
+  - apply (nested_rollup_all p rk W (is_tree_forest p Ht)); auto.
+  - destruct (near_rollup_after_updates p rk W measure ops us Hm Hus) as [E R]. eexists; split; [exact E|exact R].
+  - destruct (chain_rollup_after_updates p rk W TO measure ops us Hm Hus) as [E R]. eexists; split; [exact E|exact R].
+Qed.
+
+Theorem all_lca : forall p rk f en m r, wf_poset p rk -> topo_ok p -> build_enc p f = inl en ->
+  forall x y, x < pn p -> y < pn p ->
+  lowest_common_ancestors (mk_index p en m r) x y = spec_lca p x y.
+Proof.
+  intros p rk f en m r W TO H x y Hx Hy.
+  destruct (build_enc_cases p f en H) as [[Ht ->]|[->| ->]].
+  - apply (nested_lca p rk W TO (is_tree_forest p Ht)); auto.
+  - apply lca_generic; auto.
+    + unfold mk_index. cbn [ix_enc]. rewrite (near_enc p). exact I.
+    + intros a b Ha Hb. apply (near_subsumes p rk W); auto.
+  - apply lca_generic; auto.
+    + reflexivity.
+    + intros a b Ha Hb. apply (chain_subsumes p rk W TO); auto.
+Qed.
+
+(* ================= 19. from_edges rejects only cyclic inputs ================= *)
+Section KahnComplete.
+  Variables (n : nat) (par : list (list nat)).
+  Hypothesis Hpar_nd : forall c, NoDup (nth c par []).
+  Hypothesis Hpar_lt : forall c q, In q (nth c par []) -> q < n.
+  Variable rk : nat -> nat.
+  Hypothesis Hacyc : forall c q, In q (nth c par []) -> rk c < rk q.
+
+  Definition kE (Q O : list nat) : Prop :=
+    forall q, q < n -> pending n par q O = [] -> In q Q \/ In q O.
+
+  Lemma kE_step : forall ig u Q O, kinv n par ig (u :: Q) O -> kE (u :: Q) O ->
+    kE (snd (fold_left kstep (nth u par []) (ig, Q))) (u :: O).
+  Proof.
+    intros ig u Q O K E q Hq Hp. destruct K as [Klen KA KB KC KD Knd Klt].
+    destruct (KB u) as [Hu [Hpu HuO]]; [cbn; auto|].
+    destruct (kfold (nth u par []) ig Q (Hpar_nd u)) as [F1 [F2 F3]].
+    { intros x Hx. rewrite Klen. eapply Hpar_lt; eauto. }
+    rewrite F2.
+    pose proof (pending_cons n par Hpar_nd Hpar_lt q u O Hu HuO) as Hc. rewrite Hp in Hc. cbn [length] in Hc.
+    destruct (pending n par q O) as [|a l] eqn:Ep.
+    - destruct (E q Hq Ep) as [[<-|H]|H].
+      + right. cbn; auto.
+      + left. apply in_or_app; auto.
+      + right. cbn; auto.
+    - left. apply in_or_app; right. cbn [length] in Hc.
+      destruct (memn q (nth u par [])) eqn:Em; [|lia].
+      apply filter_In. split; [apply memn_In; auto|]. apply Nat.eqb_eq.
+      rewrite KA, Ep by auto. cbn [length]. lia.
+  Qed.
+
+  Lemma all_output : forall ig O, kinv n par ig [] O -> kE [] O -> forall v, v < n -> In v O.
+  Proof.
+    intros ig O K E.
+    assert (G : forall k v, v < n -> rk v < k -> In v O).
+    { induction k as [|k IH]; intros v Hv Hk; [lia|].
+      destruct (pending n par v O) as [|c l] eqn:Ep.
+      - destruct (E v Hv Ep) as [[]|H]; auto.
+      - assert (Hc : In c (pending n par v O)) by (rewrite Ep; cbn; auto).
+        apply (in_pending n par Hpar_nd Hpar_lt) in Hc as [Hcn [Hvc HcO]].
+        exfalso. apply HcO. apply IH; auto. pose proof (Hacyc c v Hvc). lia. }
+    intros v Hv. apply (G (S (rk v))); auto.
+  Qed.
+
+  Lemma kahn_complete : forall fuel ig Q O, kinv n par ig Q O -> kE Q O -> length O + fuel = n ->
+    length (kahn fuel par ig Q O) = n.
+  Proof.
+    induction fuel as [|f IH]; intros ig Q O K E Hl.
+    - cbn. rewrite rev_length. lia.
+    - destruct Q as [|u Q].
+      + cbn. rewrite rev_length.
+        pose proof (all_output ig O K E) as Hall. destruct K as [_ _ _ _ _ Knd Klt].
+        apply Nat.le_antisymm.
+        * rewrite <- (seq_length n 0). apply NoDup_incl_length; auto.
+          intros x Hx. apply in_seq. apply Klt in Hx. lia.
+        * rewrite <- (seq_length n 0) at 1. apply NoDup_incl_length; [apply seq_NoDup|].
+          intros x Hx. apply in_seq in Hx. apply Hall. lia.
+      + cbn [kahn]. pose proof (kinv_step n par Hpar_nd Hpar_lt ig u Q O K) as K'.
+        pose proof (kE_step ig u Q O K E) as E'.
+        change (fold_left _ (nth u par []) (ig, Q)) with (fold_left kstep (nth u par []) (ig, Q)).
+        destruct (fold_left kstep (nth u par []) (ig, Q)) as [ig' Q']. cbn [fst snd] in *.
+        apply IH; auto. cbn [length]. lia.
+  Qed.
+End KahnComplete.
+
+Theorem from_edges_complete : forall n edges err,
+  (forall c q, In (c, q) edges -> c < n /\ q < n) ->
+  from_edges n edges = inr err ->
+  ~ exists rk : nat -> nat, forall c q, In (c, q) edges -> rk c < rk q.
+Proof.
+  intros n edges err Hrange H [rk Hrk]. unfold from_edges in H.
+  set (es := dedup_edges edges []) in *.
+  destruct (dedup_spec edges []) as [Hes_nd Hes_in]. fold es in Hes_nd, Hes_in.
+  assert (Hes : forall e, In e es <-> In e edges) by (intros e; rewrite Hes_in; cbn; tauto).
+  assert (Hes_lt : forall e, In e es -> fst e < n /\ snd e < n).
+  { intros [c q] He. apply Hes in He. apply Hrange in He. auto. }
+  destruct (push_fold fst snd es (repeat [] n)) as [Pl Pn]; [intros e He; rewrite repeat_length; apply Hes_lt; auto|].
+  destruct (push_fold snd fst es (repeat [] n)) as [Cl Cn]; [intros e He; rewrite repeat_length; apply Hes_lt; auto|].
+  destruct (count_fold es (repeat 0 n)) as [Il In_]; [intros e He; rewrite repeat_length; apply Hes_lt; auto|].
+  set (par := fold_left (fun a e => push_at a (fst e) (snd e)) es (repeat [] n)) in *.
+  set (ch := fold_left (fun a e => push_at a (snd e) (fst e)) es (repeat [] n)) in *.
+  set (indeg := fold_left (fun a (e : nat * nat) => upd a (snd e) (S (nth (snd e) a 0))) es (repeat 0 n)) in *.
+  rewrite repeat_length in Pl, Cl, Il.
+  assert (Ppar : forall c, nth c par [] = map snd (filter (fun e => fst e =? c) es)).
+  { intros c. rewrite Pn. destruct (Nat.ltb_spec c n); [rewrite nth_repeat|rewrite nth_overflow by (rewrite repeat_length; lia)]; reflexivity. }
+  assert (Pch : forall v, nth v ch [] = map fst (filter (fun e => snd e =? v) es)).
+  { intros c. rewrite Cn. destruct (Nat.ltb_spec c n); [rewrite nth_repeat|rewrite nth_overflow by (rewrite repeat_length; lia)]; reflexivity. }
+  assert (Hpar_in : forall c q, In q (nth c par []) <-> In (c, q) es).
+  { intros c q. rewrite Ppar, in_map_iff. split.
+    - intros [[a b] [E1 E2]]. apply filter_In in E2 as [E2 E3]. cbn [fst snd] in E1, E3. apply Nat.eqb_eq in E3. rewrite <- E1, <- E3. auto.
+    - intros Hin. exists (c, q). split; auto. apply filter_In. split; auto. cbn. apply Nat.eqb_refl. }
+  assert (Hch_in : forall v c, In c (nth v ch []) <-> In (c, v) es).
+  { intros v c. rewrite Pch, in_map_iff. split.
+    - intros [[a b] [E1 E2]]. apply filter_In in E2 as [E2 E3]. cbn [fst snd] in E1, E3. apply Nat.eqb_eq in E3. rewrite <- E1, <- E3. auto.
+    - intros Hin. exists (c, v). split; auto. apply filter_In. split; auto. cbn. apply Nat.eqb_refl. }
+  assert (Hpar_nd : forall c, NoDup (nth c par [])).
+  { intros c. rewrite Ppar. apply NoDup_map_in; [apply NoDup_filter; auto|].
+    intros [a b] [a' b'] Ha Hb E. apply filter_In in Ha as [_ Ha]. apply filter_In in Hb as [_ Hb].
+    cbn [fst snd] in Ha, Hb, E. apply Nat.eqb_eq in Ha, Hb. congruence. }
+  assert (Hch_nd : forall v, NoDup (nth v ch [])).
+  { intros c. rewrite Pch. apply NoDup_map_in; [apply NoDup_filter; auto|].
+    intros [a b] [a' b'] Ha Hb E. apply filter_In in Ha as [_ Ha]. apply filter_In in Hb as [_ Hb].
+    cbn [fst snd] in Ha, Hb, E. apply Nat.eqb_eq in Ha, Hb. congruence. }
+  assert (Hpar_lt : forall c q, In q (nth c par []) -> q < n).
+  { intros c q Hq. apply Hpar_in in Hq. apply Hes_lt in Hq. tauto. }
+  (* initial Kahn invariant *)
+  assert (Hdeg : forall q, q < n -> nth q indeg 0 = length (pending n par q [])).
+  { intros q Hq. rewrite In_, nth_repeat. cbn [plus].
+    rewrite <- (map_length fst (filter (fun e : nat * nat => snd e =? q) es)). rewrite <- Pch.
+    apply Nat.le_antisymm; apply NoDup_incl_length; auto.
+    - intros c Hc. apply (in_pending n par Hpar_nd Hpar_lt). apply Hch_in in Hc. split; [apply Hes_lt in Hc; tauto|].
+      split; [apply Hpar_in; auto|cbn; tauto].
+    - apply NoDup_filter, seq_NoDup.
+    - intros c Hc. apply (in_pending n par Hpar_nd Hpar_lt) in Hc as [_ [Hc _]]. apply Hch_in, Hpar_in; auto. }
+  set (q0 := filter (fun i => nth i indeg 0 =? 0) (seq 0 n)) in *.
+  assert (K0 : kinv n par indeg q0 []).
+  { constructor; auto.
+    - intros q Hq. apply filter_In in Hq as [Hq1 Hq2]. apply in_seq in Hq1. apply Nat.eqb_eq in Hq2.
+      split; [lia|]. split; auto. apply length_zero_iff_nil. rewrite <- Hdeg by lia. auto.
+    - apply NoDup_filter, seq_NoDup.
+    - intros l1 q l2 E. destruct l1; discriminate.
+    - constructor.
+    - intros q []. }
+  assert (E0 : kE n par q0 []).
+  { intros q Hq Hp. left. unfold q0. apply filter_In. split; [apply in_seq; lia|].
+    apply Nat.eqb_eq. rewrite Hdeg by auto. rewrite Hp. reflexivity. }
+  assert (Hac : forall c q, In q (nth c par []) -> rk c < rk q).
+  { intros c q Hq. apply Hpar_in in Hq. apply Hes in Hq. apply Hrk; auto. }
+  pose proof (kahn_complete n par Hpar_nd Hpar_lt rk Hac n indeg q0 [] K0 E0 eq_refl) as Hlen.
+  rewrite Hlen, Nat.eqb_refl in H. discriminate.
+Qed.
